@@ -310,9 +310,8 @@ def main(argv=None):
                 c["n"] = max(1, int(c["n"] * a.scale))
     for c in cells:
         modes.add(c.get("mode", "jit"))
-    for m in sorted(modes):
-        if m != "nojit":
-            warm(m)
+    if "jit" in modes:
+        warm("jit")
     cell_timeout = 1800 if a.tier == "quick" else 4 * 3600
     results = run_cells(prop, a.tier, seed, cells, cell_timeout)
     evidence, violations, known, errors = merge(
